@@ -388,7 +388,7 @@ pub struct QGen {
   free: Vec<(usize, usize)>,
 }
 
-const BOOSTS: [f32; 7] = [1.0, 1.0, 2.0, 0.5, 1.5, 1.2, 0.0];
+const BOOSTS: [f32; 8] = [1.0, 1.0, 2.0, 0.5, 1.5, 1.2, 0.0, 0.0];
 
 impl QGen {
   pub fn new(rng: &mut Rng) -> QGen {
